@@ -1216,6 +1216,9 @@ func (e *Engine) computeImmutable() []*Obligation {
 					if !freshRooted(fa.X, nil, 0) {
 						ok = false
 						note = "assigned in " + fn.String() + " on an object that is not under construction"
+					} else if pub := publishedBefore(fa.X, st); pub != nil {
+						ok = false
+						note = "assigned in " + fn.String() + " (" + e.posString(st.Pos()) + ") after the object has already been handed on at " + e.posString(pub.Pos())
 					}
 				}
 			}
@@ -1746,4 +1749,125 @@ func (e *Engine) globalAddressEscapes(g *ssa.Global) bool {
 		}
 	}
 	return false
+}
+
+// publishedBefore: the object whose field `st` assigns (ptr: the pointer operand of the FieldAddr, fresh-rooted) has,
+// on some path, already been handed to other code before the store executes: passed to a call, stored into memory
+// other than the local variable that names it, sent, converted to an interface, captured by a closure. Returns the
+// publishing instruction, or nil. The objects of interest are named by one local variable (`x := new(T)` /
+// `x := &T{...}`): the aliases are the allocation itself and every load of that variable.
+func publishedBefore(ptr ssa.Value, st *ssa.Store) ssa.Instruction {
+	aliases := map[ssa.Value]bool{}
+	var cell *ssa.Alloc
+	switch x := ptr.(type) {
+	case *ssa.Alloc:
+		aliases[x] = true
+	case *ssa.UnOp:
+		c, ok := x.X.(*ssa.Alloc)
+		if !ok || c.Referrers() == nil {
+			return nil
+		}
+		cell = c
+		for _, r := range *c.Referrers() {
+			switch y := r.(type) {
+			case *ssa.Store:
+				if y.Addr == ssa.Value(c) {
+					aliases[y.Val] = true
+				}
+			case *ssa.UnOp:
+				if y.Op == token.MUL {
+					aliases[y] = true
+				}
+			}
+		}
+	default:
+		return nil
+	}
+	fn := st.Parent()
+	var pubs []ssa.Instruction
+	for _, b := range fn.Blocks {
+		for _, ins := range b.Instrs {
+			switch x := ins.(type) {
+			case *ssa.Call:
+				if _, isBuiltin := x.Call.Value.(*ssa.Builtin); isBuiltin {
+					continue
+				}
+				for _, a := range x.Call.Args {
+					if aliases[a] {
+						pubs = append(pubs, ins)
+					}
+				}
+				if x.Call.IsInvoke() && aliases[x.Call.Value] {
+					pubs = append(pubs, ins)
+				}
+			case *ssa.Go:
+				for _, a := range x.Call.Args {
+					if aliases[a] {
+						pubs = append(pubs, ins)
+					}
+				}
+			case *ssa.Defer:
+				for _, a := range x.Call.Args {
+					if aliases[a] {
+						pubs = append(pubs, ins)
+					}
+				}
+			case *ssa.Store:
+				if aliases[x.Val] && (cell == nil || x.Addr != ssa.Value(cell)) {
+					if _, isAlloc := x.Addr.(*ssa.Alloc); !isAlloc || x.Addr.(*ssa.Alloc).Heap {
+						pubs = append(pubs, ins)
+					}
+				}
+			case *ssa.Send:
+				if aliases[x.X] {
+					pubs = append(pubs, ins)
+				}
+			case *ssa.MakeInterface:
+				if aliases[x.X] {
+					pubs = append(pubs, ins)
+				}
+			case *ssa.MakeClosure:
+				for _, bnd := range x.Bindings {
+					if aliases[bnd] || (cell != nil && bnd == ssa.Value(cell)) {
+						pubs = append(pubs, ins)
+					}
+				}
+			case *ssa.MapUpdate:
+				if aliases[x.Value] || aliases[x.Key] {
+					pubs = append(pubs, ins)
+				}
+			}
+		}
+	}
+	// is the store reachable from a publication?
+	for _, p := range pubs {
+		pb := p.Block()
+		pi := -1
+		for j, x := range pb.Instrs {
+			if x == p {
+				pi = j
+			}
+		}
+		visited := map[*ssa.BasicBlock]bool{}
+		found := false
+		var scan func(blk *ssa.BasicBlock, from int)
+		scan = func(blk *ssa.BasicBlock, from int) {
+			for j := from; j < len(blk.Instrs) && !found; j++ {
+				if blk.Instrs[j] == ssa.Instruction(st) {
+					found = true
+				}
+			}
+			for _, sc := range blk.Succs {
+				if !visited[sc] && !found {
+					visited[sc] = true
+					scan(sc, 0)
+				}
+			}
+		}
+		scan(pb, pi+1)
+		if found {
+			return p
+		}
+	}
+	return nil
 }
